@@ -115,6 +115,7 @@ func (m *Packet) Clone() fatchoy.IPacket {
 	clone.Seq_ = m.Seq_
 	clone.Flg = m.Flg
 	clone.Type_ = m.Type_
+	clone.Node_ = m.Node_
 	clone.Refers_ = m.Refers_
 	clone.Body_ = m.Body_
 	return clone
